@@ -213,8 +213,67 @@ def tmpl_programs(res, tier, rnd):
     ts = C.tlc_prints(r["out"], "TMPL")
     res.add(states=r["distinct"], transitions=r["generated"], template_programs_enumerated=len(ts))
     ts.sort(key=json.dumps)
-    pick = rnd.sample(ts, 160 if tier == "thorough" else 24)
+    # stratified by structural class: what matters to a work-list analysis is a node that is reached from
+    # several dependents at different nesting depths, so half of the programs have a nested instantiation
+    # T_j<T_m<A>> whose outer template is also instantiated by a template that is independent of the nest
+    cls = {}
+    for t in ts:
+        cls.setdefault(tmpl_class(t), []).append(t)
+    n = 160 if tier == "thorough" else 24
+    pick = []
+    share = {"nested+shared": n // 2, "nested": n // 6, "shared": n // 6}
+    for c, k in share.items():
+        pick += rnd.sample(cls.get(c, []), min(k, len(cls.get(c, []))))
+    rest = [t for t in ts if t not in pick]
+    pick += rnd.sample(rest, n - len(pick))
+    res.add(template_program_classes={c: len(v) for c, v in sorted(cls.items())})
     return [("tmpl%03d" % k, tmpl_family(t)) for k, t in enumerate(pick)]
+
+
+def tmpl_class(t):
+    insts = {}          # template -> set of templates that instantiate it
+    for i, o in enumerate(t, 1):
+        for x in ([o["j"]] if o["k"] in ("val", "ptr", "named", "nest") else []) + ([o["m"]] if o["k"] == "nest" else []):
+            insts.setdefault(x, set()).add(i)
+    nested = [(i, o) for i, o in enumerate(t, 1) if o["k"] == "nest"]
+    shared = any(len(v) >= 2 for v in insts.values())
+    if nested and any(len(insts.get(o["j"], ())) >= 2 for _, o in nested):
+        return "nested+shared"
+    if nested:
+        return "nested"
+    return "shared" if shared else "flat"
+
+
+def perm_orders(fam, limit=24, fwd=False):
+    """Every order of the template definitions in which each template is defined before it is used (with
+    fwd=True: any order that respects by-value needs, forward declarations put in front of the first use
+    of a template that is not yet defined); Named first, the users last."""
+    import itertools
+    decls = fam["decls"]
+    tmpls = sorted(d for d in decls if d.startswith("T"))
+    users = sorted(d for d in decls if d.startswith("U"))
+    out = []
+    for perm in itertools.permutations(tmpls):
+        order, defined, declared, ok = [["def", "Named"]], {"Named"}, {"Named"}, True
+        for d in perm:
+            if any(x not in defined for x in decls[d][2]):
+                ok = False
+                break
+            for u in decls[d][3]:
+                if u not in declared:
+                    if not fwd:
+                        ok = False
+                        break
+                    order.append(["fwd", u])
+                    declared.add(u)
+            if not ok:
+                break
+            order.append(["def", d])
+            defined.add(d)
+            declared.add(d)
+        if ok:
+            out.append(order + [["def", u] for u in users])
+    return out[:limit]
 
 
 def clang_accepts(path, lang):
@@ -317,7 +376,12 @@ def run(res, tier, validate, report):
     gen_trans += max(r["generated"], norders)
     allcases, per = [], {}
     for k, (name, fam) in enumerate(tm, 1):
-        cases = run_family(res, name, fam, orders.get(k, []))
+        os_ = list(orders.get(k, []))
+        if tmpl_class(fam["tmpl"]) == "nested+shared":
+            # the class where the relative order of independent templates decides who is popped first:
+            # every order of the definitions, not a sample
+            os_ = os_[:2] + [o for o in perm_orders(fam) if o not in os_[:2]]
+        cases = run_family(res, name, fam, os_)
         per[name] = (fam, cases)
         allcases += cases
     dd, out = C.run_cases_logged(allcases, "c07-r2run-tmpl")
